@@ -16,6 +16,8 @@ func main() {
 		os.Exit(workerMain(os.Args[2:]))
 	case "check":
 		os.Exit(checkMain(os.Args[2:]))
+	case "replay":
+		os.Exit(replayMain(os.Args[2:]))
 	default:
 		fmt.Fprintln(os.Stderr, "unknown subcommand", os.Args[1])
 		os.Exit(2)
